@@ -76,6 +76,33 @@ NOTES = {
  'C19_6': 'missed at first; values that Unicode normalisation would rewrite (combining sequences, OHM / ANGSTROM signs, compatibility ideographs)',
  'C20_5': 'missed at first; payload in 16 other request headers; fragments made only of characters naive token validations accept',
  'C20_6': 'missed at first; payload as value of well-known query keys (callback, jsonp, format ...) with JSON rendering',
+ # round 4
+ 'C01_7': 'missed at first; anchored / look-behind / word-boundary expressions (^, \\A, \\b, \\B, (?<!..)) in the regex pool and a fixed grid of them behind literal text',
+ 'C01_8': 'missed at first; digit-like characters outside \\d (superscript, circled, Arabic-Indic, full-width digits) in the value pool',
+ 'C03_7': 'missed at first; handler kinds `http_response` / `error_again` (user error handlers that fail again), request served under a watchdog',
+ 'C03_8': 'missed at first; hook kind `rewrite_path` (a before_request hook that changes PATH_INFO decides the route)',
+ 'C04_7': 'missed at first; declared lengths from 1 MiB upward with a short stream; the spooled body must have the size actually received',
+ 'C04_8': 'missed at first; `wsgi.input_terminated` dimension with Content-Length 0 / absent / positive',
+ 'C05_7': 'missed at first; chunked requests that also carry a Content-Length (rotated over 0 / wire / payload length) through the WSGI path',
+ 'C06_7': 'missed at first; preambles of blank lines and text; the check then exposed a genuine split-dependence of the unchanged tree (repaired, /repo f69c9ac)',
+ 'C06_8': 'missed at first; parts with 6000 bytes of data so that long delimiter-free runs cross every buffer size',
+ 'C07_7': 'missed at first; uploads read in interleaved partial reads (a.read(k), b.read(k), request.body.read(k), a.read() ...)',
+ 'C08_8': 'missed at first; `resp_copy` kind (handler constructs / copies a response object) paired with `ok` and `expires`',
+ 'C08_9': 'missed at first; `form_fixed` kind (same boundary in both requests) and two-preemption schedules (A k steps, B m steps, A to the end, B to the end) on a stride',
+ 'C09_7': 'missed at first; `sess_mutate` kind (handler mutates the value of its signed cookie in place; the next request with the same cookie must see the original)',
+ 'C10_7': 'missed at first; foreign operation: construct an application from the configuration object of a live one, then set a configuration attribute; grid over attributes x kinds',
+ 'C10_8': 'missed at first; two applications on two threads, every single-preemption schedule for 12 same-kind pairs',
+ 'C11_8': 'missed at first; `rex` rules with selector suffix in the universe of the differential (removal by rule / by prefix must address them)',
+ 'C12_7': 'missed at first; field-count dimension: 1-20000 urlencoded fields / 1-5000 multipart parts as grid and generator',
+ 'C12_8': 'missed at first; parts declaring their own charset (known, unknown, non-text codecs, malformed labels) as grid and generator; delivered-value oracle made charset-tolerant',
+ 'C13_7': 'missed at first; small form followed by an epilogue (or preceded by a preamble) of S bytes: counts against max_body_size, request.body stays the body sent',
+ 'C14_7': 'missed at first; set_cookie values (plain, quoted, half-quoted, with CR/LF/NUL) judged as emitted',
+ 'C15_7': 'missed at first; value re-presented under a shorter / longer name with the moved characters spliced into payload or signature (fixed prefix-related name pairs + generated)',
+ 'C15_8': 'missed at first; signed values that are object graphs (shared and cyclic references) must read back with the same shape',
+ 'C17_8': 'missed at first; RFC 850 / asctime / numeric-zone dates each with a legacy `; length=N` parameter',
+ 'C18_7': 'missed at first; body stream read / moved / probed as JSON before the first access to the form',
+ 'C18_8': 'missed at first; two threads decoding a 4-pair and a 300 / 1100-field query or form, every single-preemption schedule of the small one',
+ 'C20_7': 'missed at first; 1-3 earlier requests for the same error on the same application with another Accept (HTML then JSON and the reverse)',
 }
 
 
